@@ -316,15 +316,16 @@ def tamper (c : Case) : Verdict :=
         let tag := s!"{st.tag},{if applied = "-" then "none" else mutKind},{o.getD "rerr" "?"}"
         let got := (o.nat "got").getD 0
         let rerr := o.getD "rerr" "?"
-        -- monitors on the implementation's output
+        -- monitors that need nothing but the implementation's output
         if o.getD "prefix" "?" ≠ "1" then .propFail tag "altered-plaintext-returned"
         else if o.getD "werr" "?" ≠ "ok" then .diff tag "werr=ok"
-        else if applied ≠ "-" ∧ got > before then .propFail tag s!"plaintext-of-a-tampered-record-returned got={got} before={before}"
-        else if applied ≠ "-" ∧ (rerr = "ok") then .propFail tag "no-error-after-tampering"
-        else if applied ≠ "-" ∧ mutKind ≠ "cut" ∧ rerr = "eof" then .propFail tag "tampered-record-skipped-silently"
-        else if applied = "-" ∧ (got ≠ total ∨ rerr ≠ "eof") then .propFail tag s!"untampered-stream-not-delivered got={got} total={total} rerr={rerr}"
+        else if o.getD "applied" "-" ≠ "-" ∧ (rerr = "ok") then .propFail tag "no-error-after-tampering"
+        else if o.getD "applied" "-" ≠ "-" ∧ mutKind ≠ "cut" ∧ rerr = "eof" then .propFail tag "tampered-record-skipped-silently"
+        else if (o.getD "applied" "-").startsWith "cut@" ∧ o.getD "applied" "-" ≠ "cut@0" ∧ rerr = "eof" then
+          .propFail tag "record-cut-in-the-middle-reported-as-clean-eof"
+        else if o.getD "applied" "-" = "-" ∧ (got ≠ total ∨ rerr ≠ "eof") then .propFail tag s!"untampered-stream-not-delivered got={got} total={total} rerr={rerr}"
         else
-          -- correspondence
+          -- correspondence of the framing first: the next monitor relies on it
           let lens := ",".intercalate (recs.map fun (r : Bytes) => toString r.length)
           let implLens := o.getD "lens" "-"
           let lensOK := if mutKind = "cut" ∧ applied ≠ "-" then
@@ -333,6 +334,8 @@ def tamper (c : Case) : Verdict :=
             else implLens = (if recs.isEmpty then "-" else lens)
           if !lensOK then .diff tag s!"lens={lens}"
           else if o.getD "applied" "?" ≠ applied then .diff tag s!"applied={applied}"
+          -- with identical framing: nothing of the touched record (or after it) may have been returned
+          else if applied ≠ "-" ∧ got > before then .propFail tag s!"plaintext-of-a-tampered-record-returned got={got} before={before}"
           else
             let (mgot, merr) := readAll C 300 { rd with raw := stream } 0
             if mgot ≠ got ∨ merr ≠ rerr then .diff tag s!"got={mgot} rerr={merr}"
